@@ -8,6 +8,9 @@
 //	cleaner:   block.MarkForDeletion at a chosen sub-second phase, later real fetch + BlocksCleaner.DeleteMarkedBlocks
 //	partial:   BestEffortCleanAbortedPartialUploads on partial blocks whose objects were written at chosen instants
 //	partial-wired: the same through the compactor's wiring (Syncer.Partial(), IgnoreDeletionMarkFilter.DeletionMarkBlocks())
+//	history:   ONE long-lived filter + syncer + cleaner (as a running compactor) and every bounded sequence of
+//	           mark / re-mark / unmark / sync / sync+clean / advance-time on one block: a block may be removed only
+//	           if the deletion mark that is in the bucket at that moment is older than the delete delay
 //
 // All ages sit at boundary + delta for delta in {-1001,-1000,-999,-1,0,+1,+999,+1000,+1001} ms.
 package c32
@@ -37,15 +40,79 @@ import (
 )
 
 type Case struct {
-	Part    string `json:"part"`     // retention | cleaner | partial | partial-wired
-	PhaseMs int    `json:"phase_ms"` // sub-second phase of the reference instant (retention: now; cleaner: instant of marking)
-	DeltaMs int    `json:"delta_ms"` // age = boundary + delta
-	Res     int    `json:"res"`      // retention: index of the focus block's resolution (raw, 5m, 1h)
-	RetCfg  int    `json:"ret_cfg"`  // retention: index into retCfgs
-	Delay   int    `json:"delay"`    // cleaner: index into delays
-	Pattern int    `json:"pattern"`  // partial: 0 all objects written together; 1 one object an hour older; 2 focus object old, another object touched 1h before the check
-	InMap   bool   `json:"in_map"`   // partial: block is in the deletion-mark map handed to the function; partial-wired: deletion-mark.json object present
-	UlidOld bool   `json:"ulid_old"` // partial: ULID creation time 10 days in the past (else: now)
+	Part    string `json:"part"`           // retention | cleaner | partial | partial-wired | history
+	PhaseMs int    `json:"phase_ms"`       // sub-second phase of the reference instant (retention: now; cleaner: instant of marking)
+	DeltaMs int    `json:"delta_ms"`       // age = boundary + delta
+	Res     int    `json:"res"`            // retention: index of the focus block's resolution (raw, 5m, 1h)
+	RetCfg  int    `json:"ret_cfg"`        // retention: index into retCfgs
+	Delay   int    `json:"delay"`          // cleaner: index into delays
+	Pattern int    `json:"pattern"`        // partial: 0 all objects written together; 1 one object an hour older; 2 focus object old, another object touched 1h before the check
+	InMap   bool   `json:"in_map"`         // partial: block is in the deletion-mark map handed to the function; partial-wired: deletion-mark.json object present
+	UlidOld bool   `json:"ulid_old"`       // partial: ULID creation time 10 days in the past (else: now)
+	Hist    string `json:"hist,omitempty"` // history: operations on one long-lived rig, see histOps; Delay indexes histDelays
+}
+
+// history alphabet (all on one block, one rig = one IgnoreDeletionMarkFilter + Syncer + BlocksCleaner for the whole history):
+//
+//	M  the block gets a deletion mark recording "now": block.MarkForDeletion if it has none, otherwise
+//	   deletion-mark.json is rewritten with the newer deletion_time (same effect as unmark + mark at one instant)
+//	U  block.RemoveMark (thanos tools bucket mark --remove)
+//	S  Syncer.SyncMetas (any of the compactor's syncs; runs the deletion-mark filter)
+//	C  Syncer.SyncMetas followed by BlocksCleaner.DeleteMarkedBlocks (the only way the product runs the cleaner)
+//	A  time advances by deleteDelay/2 + 1s: one A is less than the delay, two are more
+const histOps = "MUSCA"
+
+var histDelays = []time.Duration{2 * time.Second, 48 * time.Hour, 0}
+
+// histories yields every operation sequence of length <= maxLen that starts with M, ends with C and is canonical:
+// U only on a marked block, M only if it would change the mark (no M directly after M/at the same instant),
+// never two syncs in a row (S/C after S/C), at most two A in a row and four in total.
+func histories(maxLen int) []string {
+	var out []string
+	var rec func(h []byte, marked, fresh bool, nA, consA int)
+	rec = func(h []byte, marked, fresh bool, nA, consA int) {
+		var last byte
+		if len(h) > 0 {
+			last = h[len(h)-1]
+		}
+		if last == 'C' {
+			out = append(out, string(h))
+		}
+		if len(h) == maxLen {
+			return
+		}
+		for i := 0; i < len(histOps); i++ {
+			op := histOps[i]
+			m, f, a, ca := marked, fresh, nA, 0
+			switch op {
+			case 'M':
+				if marked && fresh {
+					continue
+				}
+				m, f = true, true
+			case 'U':
+				if !marked {
+					continue
+				}
+				m, f = false, false
+			case 'S', 'C':
+				if last == 'S' || last == 'C' {
+					continue
+				}
+			case 'A':
+				if consA >= 2 || nA >= 4 {
+					continue
+				}
+				f, a, ca = false, nA+1, consA+1
+			}
+			if len(h) == 0 && op != 'M' {
+				continue
+			}
+			rec(append(h[:len(h):len(h)], op), m, f, a, ca)
+		}
+	}
+	rec(nil, false, false, 0, 0)
+	return out
 }
 
 var deltas = []int{-1001, -1000, -999, -1, 0, 1, 999, 1000, 1001}
@@ -123,6 +190,19 @@ func gen(r *vlib.R) iter.Seq[Case] {
 			for _, d := range deltas {
 				if !yield(Case{Part: "partial-wired", DeltaMs: d, InMap: marked}) {
 					return
+				}
+			}
+		}
+		histPhases := []int{0}
+		if r.Thorough() {
+			histPhases = []int{0, 500}
+		}
+		for _, h := range histories(vlib.Pick(r, 7, 9)) {
+			for di := range histDelays {
+				for _, ph := range histPhases {
+					if !yield(Case{Part: "history", PhaseMs: ph, Delay: di, Hist: h}) {
+						return
+					}
 				}
 			}
 		}
@@ -209,7 +289,25 @@ func newRig(bkt *objstore.InMemBucket, deleteDelay time.Duration) (*rig, error) 
 
 type harnessErr struct{ msg string }
 
+// readMark returns the deletion mark that is in the bucket for the block right now (nil if there is none).
+func readMark(bkt *objstore.InMemBucket, id ulid.ULID) (*metadata.DeletionMark, error) {
+	raw, ok := bkt.Objects()[id.String()+"/"+metadata.DeletionMarkFilename]
+	if !ok {
+		return nil, nil
+	}
+	dm := &metadata.DeletionMark{}
+	if err := json.Unmarshal(raw, dm); err != nil {
+		return nil, err
+	}
+	return dm, nil
+}
+
 func evalCase(r *vlib.R, c Case) (herr error) {
+	defer func() {
+		if p := recover(); p != nil {
+			r.Violation("panic-in-code-under-test", fmt.Sprintf("panic: %v", p), c)
+		}
+	}()
 	ctx := context.Background()
 	bkt := objstore.NewInMemBucket()
 	start := time.Now() // bubble start, a whole second
@@ -419,6 +517,127 @@ func evalCase(r *vlib.R, c Case) (herr error) {
 				r.Add("wired_partial_block_with_deletion_mark_object_removed", 1)
 			}
 		}
+	case "history":
+		if c.Delay < 0 || c.Delay >= len(histDelays) || len(c.Hist) == 0 || len(c.Hist) > 64 {
+			return fmt.Errorf("bad case")
+		}
+		delay := histDelays[c.Delay]
+		step := delay/2 + time.Second
+		time.Sleep(5*time.Second + ms(c.PhaseMs))
+		// focus: the block the history operates on; ctl: marked once at the start and never touched again;
+		// other: never marked
+		focus, ctl, other := mkULID(start, 1), mkULID(start, 2), mkULID(start, 3)
+		for _, b := range []ulid.ULID{focus, ctl, other} {
+			must(putMeta(ctx, bkt, b, start.Add(-time.Hour).UnixMilli(), 0))
+			must(put(ctx, bkt, b.String()+"/index"))
+			must(put(ctx, bkt, b.String()+"/chunks/000001"))
+		}
+		must(block.MarkForDeletion(ctx, logger, bkt, ctl, "verif ctl", counter()))
+		rg, err := newRig(bkt, delay) // one filter, syncer and cleaner for the whole history
+		if err != nil {
+			return err
+		}
+		// deletion times of marks of the focus block that are no longer the current one (removed or rewritten)
+		// but were in the bucket during some sync of the rig
+		var pastSeen []int64
+		var curSeen bool // the current mark has been in the bucket during a sync
+		sync := func() {
+			must(rg.syncer.SyncMetas(ctx))
+			if dm, _ := readMark(bkt, focus); dm != nil {
+				curSeen = true
+			}
+		}
+		retire := func() {
+			if dm, _ := readMark(bkt, focus); dm != nil && curSeen {
+				pastSeen = append(pastSeen, dm.DeletionTime)
+			}
+			curSeen = false
+		}
+		alive := map[ulid.ULID]bool{focus: true, ctl: true, other: true}
+	ops:
+		for i := 0; i < len(c.Hist); i++ {
+			switch c.Hist[i] {
+			case 'M':
+				cur, err := readMark(bkt, focus)
+				must(err)
+				if cur == nil {
+					must(block.MarkForDeletion(ctx, logger, bkt, focus, "verif", counter()))
+				} else if cur.DeletionTime != time.Now().Unix() {
+					retire()
+					b, _ := json.Marshal(metadata.DeletionMark{ID: focus, DeletionTime: time.Now().Unix(), Version: metadata.DeletionMarkVersion1, Details: "verif re-mark"})
+					must(bkt.Upload(ctx, focus.String()+"/"+metadata.DeletionMarkFilename, bytes.NewReader(b)))
+				}
+			case 'U':
+				retire()
+				must(block.RemoveMark(ctx, logger, bkt, focus, counter(), metadata.DeletionMarkFilename))
+			case 'S':
+				sync()
+			case 'A':
+				time.Sleep(step)
+			case 'C':
+				sync()
+				now := time.Now()
+				before := map[ulid.ULID]int{}
+				marks := map[ulid.ULID]*metadata.DeletionMark{}
+				for b := range alive {
+					before[b] = len(blockObjects(bkt, b))
+					dm, err := readMark(bkt, b)
+					must(err)
+					marks[b] = dm
+				}
+				// pastOld: a mark that is no longer in the bucket, but was read by this filter, is older than the delay
+				pastOld := false
+				for _, pt := range pastSeen {
+					if now.Sub(time.Unix(pt, 0)) > delay {
+						pastOld = true
+					}
+				}
+				if cur := marks[focus]; alive[focus] && pastOld && (cur == nil || !(now.Sub(time.Unix(cur.DeletionTime, 0)) > delay)) {
+					// the discriminating situation: only a mark that is no longer in the bucket is old enough
+					r.Add("history_clean_runs_where_only_a_removed_or_replaced_mark_is_older_than_the_delay", 1)
+				}
+				_, err := rg.cleaner.DeleteMarkedBlocks(ctx)
+				must(err)
+				if !time.Now().Equal(now) {
+					return fmt.Errorf("virtual clock moved during DeleteMarkedBlocks")
+				}
+				for _, b := range []ulid.ULID{focus, ctl, other} {
+					if !alive[b] || len(blockObjects(bkt, b)) == before[b] {
+						continue
+					}
+					alive[b] = false
+					name := map[ulid.ULID]string{focus: "focus", ctl: "ctl", other: "other"}[b]
+					r.Nontrivial(fmt.Sprintf("history/%d/%d/%s/%d/%s", c.PhaseMs, c.Delay, c.Hist, i, name))
+					cur := marks[b]
+					at := fmt.Sprintf("history %q op %d (delay %v, step %v, now=%s)", c.Hist, i, delay, step, now.UTC().Format("2006-01-02T15:04:05.000"))
+					switch {
+					case cur == nil && b == other:
+						r.Violation("cleaner-removes-unmarked-block", at+": the never-marked block was removed", c)
+					case cur == nil && b == focus:
+						r.Violation("cleaner-removes-block-whose-deletion-mark-was-removed",
+							fmt.Sprintf("%s: the block has no deletion-mark.json in the bucket (it was removed with block.RemoveMark before the sync that preceded this cleaner run) and was removed; marks seen by earlier syncs of the same filter: deletion_time %v", at, pastSeen), c)
+					case cur == nil:
+						r.Violation("cleaner-removes-unmarked-block", at+": block "+name+" has no deletion mark and was removed", c)
+					case !(now.Sub(time.Unix(cur.DeletionTime, 0)) > delay) && b == focus && pastOld:
+						r.Violation("cleaner-judges-block-by-a-replaced-deletion-mark",
+							fmt.Sprintf("%s: the deletion mark in the bucket records deletion_time=%d, i.e. %v ago, not older than the delete delay, yet the block was removed; marks seen by earlier syncs of the same filter and since removed/rewritten: deletion_time %v",
+								at, cur.DeletionTime, now.Sub(time.Unix(cur.DeletionTime, 0)), pastSeen), c)
+					case !(now.Sub(time.Unix(cur.DeletionTime, 0)) > delay):
+						r.Violation("cleaner-removes-block-whose-mark-is-not-older-than-delay",
+							fmt.Sprintf("%s: block %s, mark deletion_time=%d, now-mark=%v", at, name, cur.DeletionTime, now.Sub(time.Unix(cur.DeletionTime, 0))), c)
+					}
+				}
+				if !alive[focus] {
+					r.Outcome(fmt.Sprintf("history/focus-removed-at-op=%d", i))
+					break ops
+				}
+			default:
+				return fmt.Errorf("bad history op %q", c.Hist[i])
+			}
+		}
+		if alive[focus] {
+			r.Outcome("history/focus-kept")
+		}
 	default:
 		return fmt.Errorf("unknown part %q", c.Part)
 	}
@@ -434,10 +653,15 @@ func TestCheck(t *testing.T) {
 		"newest sample of the focus block at now-retention+delta (MaxTime = newest+1), bystander blocks of the other resolutions and of an unconfigured one; " +
 		"cleaner: block.MarkForDeletion at phase {0,1,2,500,999} ms, delete delay {0,2s,1.5s,48h}, check at mark time+delay+delta, plus an unmarked block; " +
 		"partial uploads: newest object modification at threshold+delta x {objects together, one object older, another object touched 1h ago} x in deletion-mark map x ULID old/new, " +
-		"and the same through the compactor wiring with/without a deletion-mark.json object. non-trivial = distinct cases in which the real code marked / deleted / removed a block")
+		"and the same through the compactor wiring with/without a deletion-mark.json object; " +
+		"history: ONE long-lived IgnoreDeletionMarkFilter+Syncer+BlocksCleaner (wired as compact.go) and every canonical operation sequence of length <= 7 (thorough 9) over " +
+		"{M mark / rewrite the mark with deletion_time=now, U block.RemoveMark, S SyncMetas, C SyncMetas+DeleteMarkedBlocks, A advance delay/2+1s} starting with M and ending with C, " +
+		"x delete delay {2s, 48h, 0} (thorough: x marking phase {0,500} ms), next to a block marked once and a never-marked block; at every C the deletion-mark.json that is in the bucket at that moment decides. " +
+		"non-trivial = distinct cases in which the real code marked / deleted / removed a block")
 	r.Assume("virtual clock of testing/synctest (time.Now, time.Since, the in-memory bucket's LastModified all follow it); " +
 		"a block's newest sample is MaxTime-1 ms (MaxTime is exclusive; this is what TSDB writes when a head is cut at its last sample); " +
-		"the age of a deletion mark is counted from the deletion_time it records (second resolution)")
+		"the age of a deletion mark is counted from the deletion_time it records (second resolution); " +
+		"history part: the cleaner always runs right after a SyncMetas of the same rig (BucketCompactor.Compact and tools bucket cleanup do exactly this), no bucket change between that sync and the cleaner run")
 	var rc Case
 	run := func(c Case) {
 		var herr error
